@@ -316,23 +316,28 @@ class KernelRun:
             return
         src, mid, res = r.sample(PATHS, 3)
         gneed = Need.OPTIONAL if r.random() < 0.75 else Need.DEFAULT
-        await self.tx(f"k static {kkey('step', './plan.py')} {hexlist([src])}",
-                      lambda: wf.declare_static_files(wf.find(Step, "./plan.py"), [src]),
-                      lambda v: hexlist(sorted(v)))
+        ans = await self.tx(f"k static {kkey('step', './plan.py')} {hexlist([src])}",
+                            lambda: wf.declare_static_files(wf.find(Step, "./plan.py"), [src]),
+                            lambda v: hexlist(sorted(v)))
+        if not ans.startswith("ok"):  # e.g. the path is a build target: nothing to confirm then
+            return
         await self.hashes(HashUpdateCause.CONFIRMED, [src], 1.0)
-        await self.define_explicit("./plan.py", "gen", [src], [mid], gneed)
-        await self.define_explicit("./plan.py", "./sub.py", [], [], Need.PLAN)
+        for args in (("gen", [src], [mid], gneed), ("./sub.py", [], [], Need.PLAN)):
+            if not (await self.define_explicit("./plan.py", *args)).startswith("ok"):
+                return
         chain = ["./sub.py"]
         if not await self.pop_until("./sub.py"):
             return
         depth = r.choice([1, 2, 2, 3])
         for i in range(depth - 1):
             nxt = f"./mid{i}.py"
-            await self.define_explicit(chain[-1], nxt, [], [], r.choice([Need.PLAN, Need.DEFAULT]))
+            if not (await self.define_explicit(chain[-1], nxt, [], [], r.choice([Need.PLAN, Need.DEFAULT]))).startswith("ok"):
+                return
             if not await self.pop_until(nxt):
                 return
             chain.append(nxt)
-        await self.define_explicit(chain[-1], "use", [mid], [res], Need.DEFAULT)
+        if not (await self.define_explicit(chain[-1], "use", [mid], [res], Need.DEFAULT)).startswith("ok"):
+            return
         for step in ["./plan.py"] + chain:
             await self.complete_ok(step)
         if await self.pop_until("gen"):
@@ -359,12 +364,15 @@ class KernelRun:
         if "./plan.py" not in running:
             return
         src, data, res = r.sample(PATHS, 3)
-        await self.tx(f"k static {kkey('step', './plan.py')} {hexlist([src])}",
-                      lambda: wf.declare_static_files(wf.find(Step, "./plan.py"), [src]),
-                      lambda v: hexlist(sorted(v)))
+        ans = await self.tx(f"k static {kkey('step', './plan.py')} {hexlist([src])}",
+                            lambda: wf.declare_static_files(wf.find(Step, "./plan.py"), [src]),
+                            lambda v: hexlist(sorted(v)))
+        if not ans.startswith("ok"):  # e.g. the path is a build target: nothing to confirm then
+            return
         await self.hashes(HashUpdateCause.CONFIRMED, [src], 1.0)
-        await self.define_explicit("./plan.py", "produce", [src], [data], Need.DEFAULT)
-        await self.define_explicit("./plan.py", "./consume.py", [], [res], Need.DEFAULT)
+        for args in (("produce", [src], [data], Need.DEFAULT), ("./consume.py", [], [res], Need.DEFAULT)):
+            if not (await self.define_explicit("./plan.py", *args)).startswith("ok"):
+                return
         await self.complete_ok("./plan.py")
         if await self.pop_until("produce", limit=3):
             await self.complete_ok("produce")
